@@ -663,6 +663,11 @@ class Frame:
     def x_Constant(self, n: ast.Constant) -> Any:
         return n.value
 
+    def x_NamedExpr(self, n: ast.NamedExpr) -> Any:
+        v = self.eval(n.value)
+        self.assign(n.target, v)
+        return v
+
     def x_Name(self, n: ast.Name) -> Any:
         if n.id in self.locals:
             return self.locals[n.id]
